@@ -35,3 +35,7 @@ def run(chk):
     for k in ("traces_validated_against_impl", "behaviours_replayed", "random_walk_steps_replayed", "conforming", "abandoned_prefix_diverged"):
         chk.cov[k] = cov_off[k] + cov_on[k]
     chk.cov["configurations"] = ["wal off", "wal on"]
+
+
+def replay(chk, path):
+    return relrun.replay_file(chk, path, relevant, signature)
